@@ -295,8 +295,7 @@ fn a_inits(tier: Tier) -> Vec<(ASt, u64)> {
         let rc = ReqCfg::new("POST", "1.0", "http://a.test/").orig("content-length", "3").orig("expect", "100-continue").orig("connection", "close");
         let f = rc.build_prepare().expect("prep");
         let mut f = f.proceed();
-        let mut buf = vec![0u8; 1024];
-        f.write(&mut buf).expect("head");
+        crate::driver::write_whole_head(&mut f).expect("head");
         let a = match AnyFlow::SendRequest(f).proceed() {
             Ok(Some(AnyFlow::Await100(a))) => a,
             _ => panic!("harness: expected Await100"),
@@ -438,8 +437,7 @@ fn start_flow(kind: &str) -> AnyFlow {
     };
     let f = rc.build_prepare().expect("prep");
     let mut f = f.proceed();
-    let mut buf = vec![0u8; 1024];
-    f.write(&mut buf).expect("head");
+    crate::driver::write_whole_head(&mut f).expect("head");
     AnyFlow::SendRequest(f).proceed().expect("proceed").expect("some")
 }
 
